@@ -428,7 +428,7 @@ class _World:
                     out = ("exc", _classify(e), f"{type(e).__name__}: {e}"[:300])
             fired = self._fired()
             self.judge(ki, out, fired, "verify")
-            if not fired and not self.crypt.armed:
+            if not fired and not self.crypt.armed and not self.crypt.lost_schemes and not self.import_blocked:
                 try:
                     with warnings.catch_warnings():
                         warnings.simplefilter("ignore")
